@@ -404,6 +404,7 @@ pub fn gen_source(seed: u64, i: usize) -> String {
     k.custom_templates = false;
     k.big_literals = false;
     k.hex = false;
+    k.array_init_permille = 400;
     let d = gen::gen_single_def(&mut r, &k);
     gen::render_def(&d)
 }
